@@ -97,7 +97,10 @@ func cycles(gs []parked) map[string][]string {
 		switch {
 		case has(g, "storage.(*Allocator).run") && (has(g, "addNodeToPartitions") || has(g, "removeNodeFromPartitions")) && strings.HasPrefix(g.state, "sync.RWMutex"):
 			loopOnLock = append(loopOnLock, g.id)
-		case has(g, "storage.(*Allocator).run", "proposePartitionNodesChangeAndWaitForCommit") && g.state == "select":
+		case has(g, "storage.(*Allocator).run") && (has(g, "proposeAddNode") || has(g, "proposeRemoveNode")) && (g.state == "select" || g.state == "chan receive"):
+			// blocked inside a proposal: waiting for the catalogue to apply its
+			// replica-set change, or for the partition group to accept a
+			// membership proposal (no leader)
 			loopOnProposal = append(loopOnProposal, g.id)
 		}
 		if (has(g, "storage.(*Allocator).watch") || has(g, "storage.(*Allocator).unwatch")) && g.state == "chan send" {
